@@ -5,7 +5,10 @@ bounds as `ninf` / `pinf` / <2·bound as an integer>.  One output line per input
   binary <eps> <ind> <u>…                          → ok <out>…
   binarylaw <eps>                                   → ok <P[flip]>
   geom <p|t|f> <eps> <sens> <value> <lo> <hi> <u>… → ok <out|none>…
+  geoms <eps> <sens> <value> <u>…                   → ok <out> (uniform stream with the redraw at exactly ½) | exhausted
   geompmf <eps> <sens> <K>                          → ok <pmf(0)> … <pmf(K)> <tail(K+1)>
+  geomq <eps> <sens> <k>…                           → ok <pmf(k)>…            (sens ≥ 1)
+  geomtail <eps> <sens> <j>…                        → ok <P[noise ≥ j]>…      (j ≥ 1, sens ≥ 1)
   post <t|f> <lo> <hi> <v>…                         → ok <g(v)|none>…
   exp <eps> <sens> <mono> <n> <util>×n <m> <measure>×m <u>…   → ok <cum>×n | <pmf>×n | <idx|runtimeError>…
   bern <gamma> <u>…                                 → ok <0|1> <consumed>   | <error>
@@ -21,7 +24,7 @@ open DPL DPL.Discrete
 
 def rtol : Float := 1e-5
 def atol : Float := 1e-8
-def fuelFold : Nat := 1000
+def fuelFold : Nat := 8
 def fuelCoin : Nat := 100000
 
 def parseBnd (s : String) : Option Bnd :=
@@ -86,6 +89,13 @@ def step (_ : Unit) (ws : List String) : Unit × String :=
           else if var == "t" then showOI (geomTruncRandomise eps sens lo hi value u)
           else showOI (geomFoldRandomise eps sens lo hi fuelFold value u)))
       | _, _, _, _, _, _ => "bad-op"
+    | "geoms" :: eps :: sens :: value :: us =>
+      match parseF eps, sens.toNat?, value.toInt?, parseFs us with
+      | some eps, some sens, some value, some us =>
+        match geomDraw us with
+        | some u => s!"ok {geomRandomise eps sens value u}"
+        | none => "exhausted"
+      | _, _, _, _ => "bad-op"
     | ["geompmf", eps, sens, k] =>
       match parseF eps, sens.toNat?, k.toNat? with
       | some eps, some sens, some k =>
@@ -94,6 +104,14 @@ def step (_ : Unit) (ws : List String) : Unit × String :=
         else
           let s := geomScaleF eps sens
           "ok " ++ showFs ((List.range (k + 1)).map (fun i => geomPmf s (Int.ofNat i)) ++ [geomTail s (k + 1)])
+      | _, _, _ => "bad-op"
+    | "geomq" :: eps :: sens :: ks =>
+      match parseF eps, sens.toNat?, ks.mapM String.toInt? with
+      | some eps, some sens, some ks => "ok " ++ showFs (ks.map (fun k => geomPmf (geomScaleF eps sens) k))
+      | _, _, _ => "bad-op"
+    | "geomtail" :: eps :: sens :: js =>
+      match parseF eps, sens.toNat?, js.mapM String.toNat? with
+      | some eps, some sens, some js => "ok " ++ showFs (js.map (fun j => geomTail (geomScaleF eps sens) j))
       | _, _, _ => "bad-op"
     | "post" :: var :: lo :: hi :: vs =>
       match parseBnd lo, parseBnd hi, vs.mapM String.toInt? with
